@@ -178,6 +178,19 @@ impl Driven {
     pub fn snapshot(&self) -> Snapshot {
         snapshot(&self.kkt)
     }
+    /// the private `_update_values` / `_scale_values` primitives, and the data-update entry points
+    pub fn update_values(&mut self, index: &[usize], values: &[f64]) {
+        self.kkt.verif_update_values(index, values);
+    }
+    pub fn scale_values(&mut self, index: &[usize], scale: f64) {
+        self.kkt.verif_scale_values(index, scale);
+    }
+    pub fn update_P(&mut self, P: &CscMatrix<f64>) {
+        self.kkt.update_P(P);
+    }
+    pub fn update_A(&mut self, A: &CscMatrix<f64>) {
+        self.kkt.update_A(A);
+    }
     pub fn cone_infos(&self) -> Vec<ConeInfo> {
         cone_infos(&self.cones)
     }
